@@ -89,6 +89,11 @@ def step (s : St) (line : String) : St × String :=
     match kvNat ws "typ", kvHex ws "data" with
     | some t, some b => (s, match frame ⟨t, b⟩ with | .ok bs => "ok " ++ hexOfBytes bs | .error _ => "err")
     | _, _ => (s, "bad-op")
+  | some "plimit" =>
+    -- 16 MB bodies: answered from the header function (frame = header ++ body, `frame_eq_header`)
+    match kvNat ws "typ", kvNat ws "n" with
+    | some t, some n => (s, match frameHeader t n with | .ok h => "ok hdr=" ++ hexOfBytes h ++ " rt=ok" | .error _ => "err")
+    | _, _ => (s, "bad-op")
   | some "pdec" =>
     match kvHex ws "data" with
     | some bs => (s, match decodePackets bs with | .ok ps => showPackets ps | .error _ => "err")
@@ -127,6 +132,8 @@ def specLine (line : String) : String :=
             if obs.endsWith want then "ok" else "VIOLATION C06/message-roundtrip " ++ op ++ " got " ++ obs
           else "ok"
       | none => "bad-op"
+    | some "plimit" =>
+      if (obs.splitOn "rt=bad").length > 1 then "VIOLATION C06/packet-roundtrip " ++ op ++ " got " ++ obs else "ok"
     | some "prt" =>
       let ps := parsePackets ws
       if ps.all (fun p => 1 ≤ p.typ ∧ p.typ ≤ 5 ∧ p.body.length < 2 ^ 24) then
